@@ -145,6 +145,9 @@ def lfda_case(rng, small_class=False):
 
 
 def gen_trace(recipe):
+  if recipe.get('suite'):
+    import suite
+    return suite.regen(recipe, ('CallFitCov', 'CallFitRca'))
   rng = np.random.default_rng(recipe['seed'])
   f = {'cov': cov_case, 'rca': rca_case, 'lfda': lfda_case, 'lfda_small': lambda r: lfda_case(r, True)}[recipe['kind']]
   return {'est': recipe['kind'], 'events': [f(rng) for _ in range(recipe['n'])]}
@@ -172,6 +175,20 @@ def run(ctx):
       ctx.note_case((e['ev'], str(e['X'])[:100], e.get('k'), e.get('embedding'), e.get('n_components')),
                     nontrivial=bool(e.get('n_components')) or e.get('kind') == 'singular')
   ctx.sample({k: str(v)[:160] for k, v in pairs[0][1]['events'][0].items()})
+  # Covariance / RCA fits performed by the repository's own tests (RCA_Supervised included: its call of RCA.fit is recorded)
+  import os, suite
+  evs, summary = core.record_suite_calls(os.path.join(ctx.work, 'suite'),
+                                         files=['test/test_fit_transform.py', 'test/test_base_metric.py', 'test/test_mahalanobis_mixin.py']
+                                         if ctx.quick else ['test/'])
+  spairs = suite.traces_from(evs, ('CallFitCov', 'CallFitRca'), 40 if ctx.quick else 0, np.random.default_rng(ctx.seed), spec=SPEC)
+  if len(spairs) < 5:
+    raise core.MachineryError('only %d closed-form fits recorded from the repository tests (%s)' % (len(spairs), summary))
+  core.judge(ctx, *SPEC, spairs, lambda r, t, c, p: {'learner': 'suite:' + r['est']}, tag='suite')
+  for r, t in spairs:
+    ctx.note_case(('suite', r['test']))
+  ctx.extra['suite_traces'] = {'pytest_summary': summary, 'tests_validated': len(spairs),
+                               'fits_validated': sum(len(t['events']) for _, t in spairs),
+                               'learners': sorted({e['cls'] for _, t in spairs for e in t['events']})}
   good = pairs[0][1]
 
   def wrong_inverse(t):
